@@ -3,7 +3,7 @@ import ast
 
 from ..program import AnalysisError, walk_local, dotted
 from ..analysis import Spec, src, class_const, const_value
-from ..rules import (GWF, EXC, mpt, need_func, stores_to, outcomes,
+from ..rules import (canon, GWF, EXC, mpt, need_func, stores_to, outcomes,
                      substitute_locals, raise_class, chained_assign_value,
                      is_const)
 from . import common
@@ -398,8 +398,28 @@ def option_handler(prog, an, rep):
     h = o['handler']
     c = an.cfg(h)
     adds = [n for n in c.nodes.values() if n.kind == 'stmt' and
-            '.add(' in src(n.ast) and 'after_pull_request' in src(n.ast)]
-    rep.floor('C12 after_pull_request recording sites', len(adds), 1)
+            isinstance(n.ast, ast.Expr) and
+            isinstance(n.ast.value, ast.Call) and
+            isinstance(n.ast.value.func, ast.Attribute) and
+            n.ast.value.func.attr == 'add' and
+            canon(h, n.ast.value.func.value, paths_only=True).endswith(
+                'settings.after_pull_request')]
+    # every declared dependency is kept: the handler adds to the set; an
+    # assignment would forget the dependencies declared before
+    rebinds = [n for n in c.nodes.values() if n.kind == 'stmt' and
+               isinstance(n.ast, (ast.Assign, ast.AugAssign)) and any(
+                   isinstance(t, (ast.Attribute, ast.Subscript)) and
+                   'after_pull_request' in src(t)
+                   for t in (n.ast.targets if isinstance(n.ast, ast.Assign)
+                             else [n.ast.target]))]
+    rep.evaluated()
+    rep.check(bool(adds) and not rebinds, R, h.qname + ': each declared '
+              'dependency is added to the set', h.where(
+                  (rebinds or adds or [None])[0]),
+              'the option handler %s: with several after_pull_request '
+              'options only the last one would hold the pull request' % (
+                  'replaces the set of dependencies' if rebinds else
+                  'no longer records the dependency'))
     ints = [n for n in c.nodes.values() if n.kind == 'stmt' and
             isinstance(n.ast, ast.Expr) and
             isinstance(n.ast.value, ast.Call) and
